@@ -67,3 +67,13 @@ Definition model_trace (c : hcase) :=
   match c with HCase cfg cls steps => trace cfg (state0 (clients_of cls)) (map (fun x => fst (fst x)) steps) end.
 
 Definition check_corr_only (c : hcase) : verdict := V (hist_corr c) None.
+
+(* per-property checks: correspondence plus the property's monitor (Cases/Monitors*.v extend these) *)
+Definition check_C01 := check_corr_only.
+Definition check_C02 := check_corr_only.
+Definition check_C03 := check_corr_only.
+Definition check_C04 := check_corr_only.
+Definition check_C05 := check_corr_only.
+Definition check_C07 := check_corr_only.
+Definition check_C08 := check_corr_only.
+Definition check_C09 := check_corr_only.
